@@ -659,7 +659,7 @@ def gFor : G :=
       let ft := v.nth 0; let l := v.nth 5; let e := loopEnd l
       let step := (v.nth 4).nth 1
       mk "for" "for" (Range.span ft.rng (if e.isSome then e.rng else ft.rng))
-        ([v.nth 3] ++ optList step ++ loopItems l) ["var=" ++ (v.nth 1).ident])
+        ([v.nth 3] ++ optList step ++ loopItems l) ["var", (v.nth 1).ident])
     (seqL [.tok Kind.For, .tok Kind.Identifier, .tok Kind.Equals, gForRange,
            .dep (.opt (.tok Kind.Step)) Tree.isSome (.opt (.ref nExpr)), .ref nUntilEndFor])
 
